@@ -73,31 +73,27 @@ theorem C07_traverse (K : Closures) (p : List Int) : ∀ (s : Stk),
     intro s hs hd hi
     have hii : InInt i := hi i (by simp)
     unfold traverse descent
-    by_cases hv : s.valid K = true
-    · simp only [hv, Bool.not_true, Bool.false_eq_true, ↓reduceIte]
-      rw [index_spec s hs i hii]
-      unfold ListSpec.index
-      cases hp : pos s.xs.length (s.flag Gen.flag_negidx) (s.flag Gen.flag_fwdidx) i with
-      | none => simp
-      | some q =>
-        simp only
-        have hdv := deepSmall_getD s.xs hd q
-        generalize s.xs.getD q .nil = v at *
-        by_cases hn : v.isNil = true
-        · simp [hn]
-        · have hn' : v.isNil = false := by simpa using hn
-          simp only [hn', Bool.not_false, Bool.not_true, Bool.false_eq_true, ↓reduceIte]
-          cases rest with
-          | nil => rfl
-          | cons j rest' =>
-            simp only
-            cases hdi : descendInto v with
-            | none => rfl
-            | some s' =>
-              obtain ⟨h1, h2⟩ := deepSmall_descend v s' hdv hdi
-              exact ih s' (by rw [pow62]; exact h1) h2 (fun k hk => hi k (by simp [hk]))
-    · have hv' : s.valid K = false := by simpa using hv
-      simp [hv']
+    rw [index_spec s hs i hii]
+    unfold ListSpec.index
+    cases hp : pos s.xs.length (s.flag Gen.flag_negidx) (s.flag Gen.flag_fwdidx) i with
+    | none => simp
+    | some q =>
+      simp only
+      have hdv := deepSmall_getD s.xs hd q
+      generalize s.xs.getD q .nil = v at *
+      by_cases hn : v.isNil = true
+      · simp [hn]
+      · have hn' : v.isNil = false := by simpa using hn
+        simp only [hn', Bool.not_false, Bool.not_true, Bool.false_eq_true, ↓reduceIte]
+        cases rest with
+        | nil => rfl
+        | cons j rest' =>
+          simp only
+          cases hdi : descendInto v with
+          | none => rfl
+          | some s' =>
+            obtain ⟨h1, h2⟩ := deepSmall_descend v s' hdv hdi
+            exact ih s' (by rw [pow62]; exact h1) h2 (fun k hk => hi k (by simp [hk]))
 
 /-- success iff every step found a non-nil element and every intermediate value was descendable -/
 theorem C07_empty_path (K : Closures) (s : Stk) : s.traverse K [] = .ok (.nil, false) := rfl
@@ -109,9 +105,7 @@ theorem C07_no_sibling (K : Closures) (s : Stk) (i : Int) (rest : List Int)
     s.traverse K (i :: rest) = .ok (.nil, false) := by
   rw [C07_traverse K (i :: rest) s hs hd hi]
   unfold descent
-  split
-  · rfl
-  · simp [hfail]
+  simp [hfail]
 
 /-- … and so does a non-descendable intermediate value -/
 theorem C07_not_descendable (K : Closures) (s : Stk) (i j : Int) (rest : List Int)
@@ -120,11 +114,9 @@ theorem C07_not_descendable (K : Closures) (s : Stk) (i j : Int) (rest : List In
     s.traverse K (i :: j :: rest) = .ok (.nil, false) := by
   rw [C07_traverse K _ s hs hd hi]
   unfold descent
-  cases hv : s.valid K
-  · simp
-  · cases hr : (ListSpec.index s.xs (s.flag Gen.flag_negidx) (s.flag Gen.flag_fwdidx) i).2
-    · simp [hr]
-    · simp [hr, hnd]
+  cases hr : (ListSpec.index s.xs (s.flag Gen.flag_negidx) (s.flag Gen.flag_fwdidx) i).2
+  · simp [hr]
+  · simp [hr, hnd]
 
 /-- non-vacuity: a two-level tree satisfying the hypotheses, and a path through it -/
 example :
